@@ -486,7 +486,7 @@ func reflectOptionalForm(c *ctx) string {
 	switch {
 	case strings.Contains(k, `if !a.IsValid() { return fmt.Errorf("argument %d is missing or null", i) }`) && !strings.Contains(f, "is required but missing"):
 		return "true"
-	case strings.Contains(k, `if !a.IsValid() { args[i] = reflect.Zero(mt.In(i)) continue }`) &&
+	case (strings.Contains(k, `if !a.IsValid() { args[i] = reflect.Zero(mt.In(i)) continue }`) || strings.Contains(k, `if !a.IsValid() { args[i] = reflect.Zero(in(i)) continue }`)) &&
 		strings.Contains(f, `for _, a := range fd.args.list { av := field.getArg(a.N) if av == nil || av.Value == nil { if _, ok := a.Type.(*NonNull); ok { ea = append(ea, resWarn(field.line, field.col, "%s is required but missing", a.N)) } args = append(args, reflect.Value{}) continue }`):
 		return "false"
 	}
